@@ -465,7 +465,7 @@ def validity(P, out, ordered):
             return f"leaf {l.name} has synteny {list(syn[l])}, input says {P.leaf_syn[l]}"
     if recon.recount(P.oroot, rec, P.leafmap, P.costs) in (None, INF):
         return "an invalid event is assigned / the cost is infinite"
-    fams = sorted({f for s in P.leaf_syn.values() for f in s})
+    fams = sorted({f for s in P.leaf_syn.values() for f in s} | set(P.root_syn or []))
     if ordered:
         if sorted(syn[P.oroot]) != fams:
             return f"root synteny {list(syn[P.oroot])} does not hold every family exactly once"
@@ -636,6 +636,8 @@ def gen(tier, rng, models=("ordered", "unordered"), count=None):
             orders = root_orders(leaf_syn, None)
             if orders:
                 r["root_syn"] = list(rng.choice(orders))
+                if rng.random() < 0.35:  # a common supersequence may hold a family that no leaf carries
+                    r["root_syn"].insert(rng.randrange(len(r["root_syn"]) + 1), "z")
         yield r
 
 
